@@ -115,21 +115,22 @@ func runC41(c *Ctx) {
 			c.Incomplete("range-split-loop", construct, p.Pos(fn.Decl.Pos()), "range-query loop not found")
 		} else {
 			bad := ""
+			lb := shapeBind{}
 			post := stmtText(p, loop.Post)
-			if post != "start=nextIntervalBoundary(start,r.GetStep(),interval)+r.GetStep()" {
+			if !matchShape("§start=nextIntervalBoundary(§start,§r.GetStep(),§interval)+§r.GetStep()", post, lb) {
 				bad = "the loop advances by `" + post + "`, want boundary + step"
 			}
-			if loop.Cond == nil || canon(loop.Cond) != "start<r.GetEnd()" {
+			if loop.Cond == nil || !matchShape("§start<§r.GetEnd()", canon(loop.Cond), lb) {
 				bad = "the loop condition is not start < end"
 			}
 			startOK := false
-			if loop.Init != nil && stmtText(p, loop.Init) == "start:=r.GetStart()" {
+			if loop.Init != nil && matchShape("§start:=§r.GetStart()", stmtText(p, loop.Init), lb) {
 				startOK = true
 			}
 			if loop.Init == nil {
 				// `if start := r.GetStart(); …` around it
 				for par := p.ParentOf(fn.Pkg, loop); par != nil; par = p.ParentOf(fn.Pkg, par) {
-					if is, ok := par.(*ast.IfStmt); ok && is.Init != nil && stmtText(p, is.Init) == "start:=r.GetStart()" {
+					if is, ok := par.(*ast.IfStmt); ok && is.Init != nil && matchShape("§start:=§r.GetStart()", stmtText(p, is.Init), lb) {
 						startOK = true
 					}
 				}
@@ -142,13 +143,13 @@ func runC41(c *Ctx) {
 			for _, st := range loop.Body.List {
 				t := stmtText(p, st)
 				switch {
-				case t == "end:=nextIntervalBoundary(start,r.GetStep(),interval)":
+				case matchShape("§end:=nextIntervalBoundary(§start,§r.GetStep(),§interval)", t, lb):
 					endDef = true
 				case strings.HasPrefix(t, "if"):
-					if is, ok := st.(*ast.IfStmt); ok && len(is.Body.List) == 1 && stmtText(p, is.Body.List[0]) == "end=r.GetEnd()" {
+					if is, ok := st.(*ast.IfStmt); ok && len(is.Body.List) == 1 && matchShape("§end=§r.GetEnd()", stmtText(p, is.Body.List[0]), lb) {
 						clamp, clampCond = true, is.Cond
 					}
-				case strings.Contains(t, ".WithStartEnd(start,end)"):
+				case containsShape(".WithStartEnd(§start,§end)", t, lb):
 					build = true
 				}
 			}
@@ -165,11 +166,11 @@ func runC41(c *Ctx) {
 			if clampCond != nil {
 				x := newE9(p, fn, func(e ast.Expr, text string) string {
 					switch strings.ReplaceAll(text, " ", "") {
-					case "end":
+					case lb["§end"]:
 						return "end"
-					case "r.GetStep()":
+					case lb["§r"] + ".GetStep()":
 						return "step"
-					case "r.GetEnd()":
+					case lb["§r"] + ".GetEnd()":
 						return "qend"
 					}
 					return ""
@@ -196,19 +197,20 @@ func runC41(c *Ctx) {
 				c.Incomplete("label-split-loop", construct+"#labels", p.Pos(fn.Decl.Pos()), "label/series split loop not found")
 			} else {
 				bad := ""
-				if stmtText(p, lloop.Init) != "start:=r.GetStart()" || canon(lloop.Cond) != "start<r.GetEnd()" {
+				sb := shapeBind{}
+				if !matchShape("§start:=§r.GetStart()", stmtText(p, lloop.Init), sb) || !matchShape("§start<§r.GetEnd()", canon(lloop.Cond), sb) {
 					bad = "the split does not run from the request's start while start < end"
 				}
-				if pt := stmtText(p, lloop.Post); pt != "start=start+dur" && pt != "start+=dur" {
+				if pt := stmtText(p, lloop.Post); !matchShape("§start=§start+§dur", pt, sb) && !matchShape("§start+=§dur", pt, sb) {
 					bad = "the split advances by `" + pt + "`, want one interval"
 				}
 				okEnd, okBuild := false, false
 				for _, st := range lloop.Body.List {
 					t := stmtText(p, st)
-					if t == "end:=min(start+dur,r.GetEnd())" {
+					if matchShape("§end:=min(§start+§dur,§r.GetEnd())", t, sb) {
 						okEnd = true
 					}
-					if strings.Contains(t, ".WithStartEnd(start,end)") {
+					if containsShape(".WithStartEnd(§start,§end)", t, sb) {
 						okBuild = true
 					}
 				}
@@ -218,7 +220,7 @@ func runC41(c *Ctx) {
 				// dur is the interval in milliseconds
 				durOK := false
 				ast.Inspect(fn.Body(), func(nd ast.Node) bool {
-					if as, ok := nd.(*ast.AssignStmt); ok && stmtText(p, as) == "dur:=int64(interval/time.Millisecond)" {
+					if as, ok := nd.(*ast.AssignStmt); ok && matchShape("§dur:=int64(§interval/time.Millisecond)", stmtText(p, as), sb) {
 						durOK = true
 					}
 					return true
